@@ -158,6 +158,34 @@ def run(ctx):
         stats["references"] += refs
         stats["empty_shapes_kept"] += sum(1 for sh in parsed['shapes'] if not sh['stmts'])
         nontriv += refs > 0
+    # inputs that declare prefixes of their own (Turtle read by rdflib): the declarations of the document are merged into the
+    # prefix map after the shapes prefix was chosen, so they can collide with it or with the caller's prefixes
+    from shexer.shaper import Shaper as _Sh
+    from shexer import consts as _C
+    stats["documents_with_own_prefixes"] = 0
+    for (g, cfg) in cases[: (60 if ctx.tier == "quick" else 600)]:
+        if cfg['inst_prop'] != RDF_TYPE or any(t[0][0] == 'B' or t[2][0] == 'B' for t in g):
+            continue
+        declared = {rng.choice(['', 'weso-s', 'shapes', 'ex', 'xsd', 'me']): EX}
+        if rng.random() < 0.5:
+            declared[rng.choice(['', 'w-shapes', 'o'])] = 'http://other.example/ns#'
+        ttl = "".join("@prefix %s: <%s> .\n" % (p_, n_) for p_, n_ in declared.items()) + to_nt(g)
+        stats["documents_with_own_prefixes"] += 1
+        try:
+            t = _Sh(raw_graph=ttl, input_format=_C.TURTLE, **impl.shaper_kwargs(cfg)).shex_graph(string_output=True, acceptance_threshold=cfg['th'][0] / cfg['th'][1])
+        except Exception as e:
+            viol.append({"what": "Turtle input with its own prefix declarations failed: %s %s" % (type(e).__name__, str(e)[:100]), "turtle_head": ttl[:300],
+                         **pipeline.case_json(g, cfg)})
+            continue
+        seen = {}
+        for ln in t.split("\n"):
+            m = re.match(r'^PREFIX (\S*): <(.*)>$', ln.strip())
+            if m:
+                if m.group(1) in seen and seen[m.group(1)] != m.group(2):
+                    viol.append({"what": "prefix %r declared twice in the ShExC (%s, %s) for a Turtle input that declares prefixes of its own" % (
+                        m.group(1) + ":", seen[m.group(1)], m.group(2)), "turtle_head": ttl[:300], "shexc_head": t[:600], **pipeline.case_json(g, cfg)})
+                    break
+                seen[m.group(1)] = m.group(2)
     # a document longer than the serializer's 5000-line buffer (string output): labels still unique, still parseable
     from shexer.shaper import Shaper as _Shaper
     nclasses = 760
